@@ -43,6 +43,27 @@ PROPS = {
                     "validity predicates on every solution and a Union round trip. Exploration only."),
         level_note="trusts the __int128 predicates in oracle.hpp/prop_C03.cpp, g++, rapidcheck",
     ),
+    "C04": dict(
+        bins={"main": dict(tc="gcc", src="prop_C04.cpp", variants=["plain"])},
+        parts=[
+            dict(name="gp", workers={Q: 10, T: 10}, cases={Q: 5000, T: 60000}),
+            dict(name="rect", workers={Q: 4, T: 4}, cases={Q: 10000, T: 120000}),
+            dict(name="rectdistinct", workers={Q: 2, T: 2}, cases={Q: 10000, T: 120000}),
+        ],
+        rule=("cases = (gp) general-position path sets, 60% nesting-heavy (stacks of 3-7 nested rings of alternating or "
+              "equal orientation, second stacks, nested/random clips), 25% with open subject polylines; (rect) rectilinear "
+              "walks on lattices of even step >= 2 (touching holes, polygons split/merged by horizontal joins); (rectdistinct) rectangles with pairwise distinct coordinates (horizontal-edge machinery without coincidences). Each case runs "
+              "64 configurations on Clipper64 -> Paths64 and -> PolyTree64, and on ClipperD -> PathsD / PolyTreeD. Oracle: "
+              "tree paths == paths result as canonical sets, open outputs equal, every node strictly inside its parent and "
+              "outside its siblings (exact winding at doubled edge midpoints), orientation alternates with level (negated by "
+              "ReverseSolution), tree.Area() == paths area. Non-trivial = tree depth >= 2 (a hole); the depth histogram is in "
+              "classification"),
+        assumptions=["|coord| <= 2^59 (2^50 for the ClipperD half)", "general position taken at separation 3 + max|coord|*2^-40 (cf. KF-C03-b)"],
+        technique="property-based testing (rapidcheck): differential Paths-vs-PolyTree execution + exact nesting/orientation oracle",
+        level_text=("Generated search with nesting-heavy generators over 64 configurations, both PolyTree64 and PolyTreeD, "
+                    "with an exact containment oracle. Exploration only."),
+        level_note="trusts oracle.hpp winding/midpoint containment, g++, rapidcheck",
+    ),
     "C02": dict(
         bins={"main": dict(tc="gcc", src="prop_C02.cpp", variants=["plain"])},
         parts=[
